@@ -308,7 +308,7 @@ Module GridC.
   (* total weight below 2^46: the threshold facts are theorems (Flocq) *)
   Lemma grid_collect_all : forall fuel T fw ds ws k,
     wf_grid ds ws -> Forall (fun s => (1 <= s)%nat) ds -> Forall (fun w => 0 <= w) ws ->
-    sumZ ws < 2 ^ 46 ->
+    total_ok fw (sumZ ws) ->
     Forall (fun s => (s < 2 ^ fuel)%nat) ds ->
     exists ids, gridrcb_impl fuel T fw ds ws k (glen ds) = Ok ids /\ in_range k (glen ds) ids.
   Proof.
@@ -318,7 +318,7 @@ Module GridC.
   Qed.
 
   Lemma grid_collect_2d : forall fuel T fw w h ws k,
-    (1 <= w)%nat -> (1 <= h)%nat -> length ws = (w * h)%nat -> Forall (fun x => 0 <= x) ws -> sumZ ws < 2 ^ 46 ->
+    (1 <= w)%nat -> (1 <= h)%nat -> length ws = (w * h)%nat -> Forall (fun x => 0 <= x) ws -> total_ok fw (sumZ ws) ->
     (w < 2 ^ fuel)%nat -> (h < 2 ^ fuel)%nat ->
     exists ids, gridrcb_impl fuel T fw [w; h] ws k (w * h) = Ok ids /\ in_range k (w * h) ids.
   Proof.
@@ -331,7 +331,7 @@ Module GridC.
 
   Lemma grid_collect_3d : forall fuel T fw w h d ws k,
     (1 <= w)%nat -> (1 <= h)%nat -> (1 <= d)%nat -> length ws = (w * h * d)%nat ->
-    Forall (fun x => 0 <= x) ws -> sumZ ws < 2 ^ 46 ->
+    Forall (fun x => 0 <= x) ws -> total_ok fw (sumZ ws) ->
     (w < 2 ^ fuel)%nat -> (h < 2 ^ fuel)%nat -> (d < 2 ^ fuel)%nat ->
     exists ids, gridrcb_impl fuel T fw [w; h; d] ws k (w * h * d) = Ok ids /\ in_range k (w * h * d) ids.
   Proof.
